@@ -259,7 +259,7 @@ def _batches(it, size):
 
 
 MAL_KINDS = ['del', 'dup', 'swap', 'unbalanced_open', 'unbalanced_close', 'op_at_start', 'op_at_end', 'double_op',
-             'infix_after_simple_ctx', 'empty_parens', 'missing_operand_after_not']
+             'infix_after_simple_ctx', 'empty_parens', 'missing_operand_after_not', 'op_typo_in_chain']
 
 
 def cases(tier, seed):
@@ -309,7 +309,7 @@ def cases(tier, seed):
     mi = 0
     for host in HOSTS + ['transformer']:
         for kind in MAL_KINDS:
-            for v in range(4 if tier == 'quick' else 12):
+            for v in range((4 if tier == 'quick' else 12) * (3 if kind == 'op_typo_in_chain' else 1)):
                 yield {'kind': 'malformed', 'host': host, 'defect': kind, 'variant': v}
                 mi += 1
     # ---- seeded -------------------------------------------------------------------------------------------
@@ -754,7 +754,25 @@ def run_malformed(case, ctx):
     else:
         base, tree = _const_tree_tokens(rng, rng.choice((1, 2, 3)))
         tree_val = ev(tree)
-    mut = _mutate(base, case['defect'], rng, is_tr)
+    if case['defect'] == 'op_typo_in_chain':
+        # a flat chain of one operator (inside parentheses, or not) in which ONE operator, at any position, is
+        # replaced by a look-alike that is not an operator of the grammar
+        n = 3 + case['variant'] % 3
+        op = '|' if is_tr else ('&&', '||')[case['variant'] // 3 % 2]
+        prim = ['identity'] if is_tr else ['constant', 'true' if op == '&&' else 'false']
+        base = []
+        for i in range(n):
+            if i:
+                base.append(op)
+            base += prim
+        pos = [i for i, x in enumerate(base) if x == op]
+        typos = {'&&': ['&', '&&&', '&|', '&amp;&amp;'], '||': ['|', '|||', '|&', '//'], '|': ['||', '|&', '¦', '\\|']}[op]
+        mut = list(base)
+        mut[pos[(case['variant'] // 2) % len(pos)]] = typos[(case['variant'] // 6 + case['variant']) % len(typos)]
+        if case['variant'] % 2:
+            mut = ['('] + mut + [')']
+    else:
+        mut = _mutate(base, case['defect'], rng, is_tr)
     if mut is None:
         ses.drop(d)
         return {'classes': [], 'viol': [], 'evaluations': 0}
